@@ -47,92 +47,8 @@ fn tick_layout() {
     assert!(view.reward_growths_outside() == rg);
 }
 
-// ---------------------------------------------------------------------------------------------------------------------------------
-// C13: byte-level encoding of the dynamic tick array (Pinocchio accessor). Fully symbolic state: any bitmap, any 9944 tick bytes that
-// are well formed for the bitmap (slot i starts at 113 * #initialized-below + 1 * #uninitialized-below and its first byte is the
-// bitmap bit), any slot k, any update. All loops are bounded by the fixed array geometry (88 slots, 113 bytes), so the harness is a
-// complete proof for its statement, not a bounded stand-in.
-use super::state::whirlpool::tick_array::dynamic_tick_array::MemoryMappedDynamicTickArray;
-use super::state::whirlpool::tick_array::{TickArray as PinoTickArray, TickUpdate as PinoTickUpdate};
-
-const DYN_HEADER: usize = 8 + 4 + 32 + 16;
-const DYN_TICKS: usize = 113 * 88;
-
-/// independent description of the layout: offsets of all 88 slots (and the used length at index 88) for a bitmap
-fn dyn_offsets(bitmap: u128) -> [usize; 89] {
-    let mut offs = [0usize; 89];
-    let mut i = 0;
-    while i < 88 {
-        offs[i + 1] = offs[i] + if (bitmap >> i) & 1 == 1 { 113 } else { 1 };
-        i += 1;
-    }
-    offs
-}
-
-#[kani::proof]
-#[kani::unwind(114)]
-fn dyn_update_tick_pino() {
-    let bitmap: u128 = kani::any();
-    kani::assume(bitmap >> 88 == 0);
-    let ticks: [u8; DYN_TICKS] = kani::any();
-    let offs = dyn_offsets(bitmap);
-    // well-formedness of the pre-state: every slot's tag byte is its bitmap bit
-    let mut i = 0;
-    while i < 88 {
-        kani::assume(ticks[offs[i]] == ((bitmap >> i) & 1) as u8);
-        i += 1;
-    }
-    let mut buf = [0u8; DYN_HEADER + DYN_TICKS];
-    buf[44..60].copy_from_slice(&bitmap.to_le_bytes()); // start_tick_index stays 0
-    buf[DYN_HEADER..].copy_from_slice(&ticks);
-    let arr: &mut MemoryMappedDynamicTickArray = unsafe { &mut *(buf.as_mut_ptr() as *mut MemoryMappedDynamicTickArray) };
-
-    let k: usize = kani::any();
-    kani::assume(k < 88);
-    let update = PinoTickUpdate {
-        initialized: kani::any(), liquidity_net: kani::any(), liquidity_gross: kani::any(),
-        fee_growth_outside_a: kani::any(), fee_growth_outside_b: kani::any(),
-        reward_growths_outside: [kani::any(), kani::any(), kani::any()],
-    };
-    let r = arr.update_tick(k as i32, 1, &update);
-    assert!(r.is_ok());
-
-    // post-state
-    let new_bitmap = u128::from_le_bytes([buf[44], buf[45], buf[46], buf[47], buf[48], buf[49], buf[50], buf[51], buf[52], buf[53], buf[54], buf[55], buf[56], buf[57], buf[58], buf[59]]);
-    let expect_bitmap = if update.initialized { bitmap | (1u128 << k) } else { bitmap & !(1u128 << k) };
-    assert!(new_bitmap == expect_bitmap);
-    let offs2 = dyn_offsets(new_bitmap);
-    let t = &buf[DYN_HEADER..];
-    // slot k holds the update
-    if update.initialized {
-        assert!(t[offs2[k]] == 1);
-        let view = arr_tick(&buf, offs2[k]);
-        assert!(view.0 == update.liquidity_net && view.1 == update.liquidity_gross && view.2 == update.fee_growth_outside_a && view.3 == update.fee_growth_outside_b);
-        assert!(view.4 == update.reward_growths_outside);
-    } else {
-        assert!(t[offs2[k]] == 0);
-    }
-    // every other slot (one arbitrary witness j) keeps its tag and, if initialized, its 112 data bytes, at its new offset
-    let j: usize = kani::any();
-    kani::assume(j < 88 && j != k);
-    assert!(t[offs2[j]] == ((bitmap >> j) & 1) as u8);
-    if (bitmap >> j) & 1 == 1 {
-        let mut b = 0;
-        while b < 113 {
-            assert!(t[offs2[j] + b] == ticks[offs[j] + b]);
-            b += 1;
-        }
-    }
-}
-
-/// little-endian fields of the 113-byte tick record at `off` of the ticks region
-fn arr_tick(buf: &[u8; DYN_HEADER + DYN_TICKS], off: usize) -> (i128, u128, u128, u128, [u128; 3]) {
-    let b = DYN_HEADER + off + 1;
-    let rd = |p: usize| -> u128 {
-        let mut v: u128 = 0;
-        let mut i = 0;
-        while i < 16 { v |= (buf[p + i] as u128) << (8 * i); i += 1; }
-        v
-    };
-    (rd(b) as i128, rd(b + 16), rd(b + 32), rd(b + 48), [rd(b + 64), rd(b + 80), rd(b + 96)])
-}
+// NOTE (C13): a fully symbolic Kani harness for MemoryMappedDynamicTickArray::update_tick (symbolic bitmap -> symbolic byte offset into the
+// 9944-byte tick region, std slice rotation, unsafe tick view) was tried and dropped: with core's rotate as is CBMC unwinds the infeasible
+// gcd/swap branches for symbolic lengths (50 min, no end); with the memmove branch stubbed in, propositional reduction ran out of memory
+// (62 GB) on the symbolic-offset memmove, `--arrays-uf-always` did not finish in 18 min and the SMT back end crashed. The byte-level
+// contract is proved deductively instead (Verus, fragment pino_tick_arrays), with the rotation and the unsafe view as assumed shims.
